@@ -177,7 +177,7 @@ def highest_for(uni, target):
     vs = [(v, n) for n, v, s, _ in uni["src"] + uni["inst"] if c15.ref_match(a, (n, v, s))]
     if not vs:
         return None
-    v, n = max(vs)
+    v, n = max(vs, key=lambda t: (c15.vkey(t[0]), t[1]))
     return n, v
 
 
@@ -214,7 +214,7 @@ def premise_upgrade(uni, targets, wit):
     req, oblig = [], []
     for t in targets:
         a = c15.parse_atom(t)
-        cands = sorted({(v, n) for n, v, s, _ in uni["src"] + uni["inst"] if c15.ref_match(a, (n, v, s))}, reverse=True)
+        cands = sorted({(v, n) for n, v, s, _ in uni["src"] + uni["inst"] if c15.ref_match(a, (n, v, s))}, key=lambda t: (c15.vkey(t[0]), t[1]), reverse=True)
         if not cands:
             return None
         h = (cands[0][1], cands[0][0])
@@ -243,7 +243,7 @@ def good_witnesses(uni, targets, wit):
     req = []
     for t in targets:
         a = c15.parse_atom(t)
-        cands = sorted({(v, n) for n, v, s, _ in uni["src"] + uni["inst"] if c15.ref_match(a, (n, v, s))}, reverse=True)
+        cands = sorted({(v, n) for n, v, s, _ in uni["src"] + uni["inst"] if c15.ref_match(a, (n, v, s))}, key=lambda t: (c15.vkey(t[0]), t[1]), reverse=True)
         for v, n in cands:
             if any((n, v) in {(q[0], q[1]) for q in w} for w in cons):
                 req.append((n, v))
@@ -351,7 +351,7 @@ def check_case(uni, targets, kind, wit=None, flow="atoms"):
 
 
 _fam = {}
-SEQ_FAMILIES = ("F7", "F8")
+SEQ_FAMILIES = ("F7", "F8", "F9")
 BUILD2 = ("DEPEND", "RDEPEND")
 
 
@@ -370,6 +370,26 @@ def history_families():
     for c1, c2 in (("DEPEND", "RDEPEND"), ("BDEPEND", "IDEPEND"), ("RDEPEND", "PDEPEND"), ("DEPEND", "PDEPEND")):
         for m in ("<a/y-2", "=a/y-1", "a/y", ">=a/y-2"):
             out.append(("F8", {}, {c1: m, c2: "a/w"}, {}, "0", {}, "q", False, [["a/x", "a/y"], ["a/y", "a/x"]]))
+    return out + revision_families()
+
+
+REV_SETS = (
+    (["1", "1-r1"], [[], ["1"]]),
+    (["1-r1", "1-r2", "1"], [[], ["1-r1"], ["1"]]),
+)
+
+
+def revision_families():
+    """F9: revision-only bumps.  a/y exists at one PV with several revisions (source {1, 1-r1} with 1 installed or not;
+    source {1-r1, 1-r2, 1} with 1-r1 or 1 installed or nothing), asked for as a target and pulled in as a dependency of
+    x-1 before being asked for.  Versions are 'N[-rM]' strings, ordered by verif.ref's full version+revision comparison."""
+    out = []
+    for vers, insts in REV_SETS:
+        for dx in ({}, {"DEPEND": "a/y"}, {"RDEPEND": "a/y"}, {"PDEPEND": "a/y"}, {"RDEPEND": ">=a/y-1-r1"}):
+            src = [["x", "1", "0", dx]] + [["y", v, "0", {}] for v in vers]
+            inst_options = [[["y", v, "0", {}] for v in i] for i in insts]
+            targets = [["a/y"], ["a/x", "a/y"], ["=a/y-" + vers[0]], [">=a/y-1"]] if dx else [["a/y"], ["=a/y-" + vers[0]], [">=a/y-1"], ["a/y", "a/x"]]
+            out.append(("RAW", "F9", src, inst_options, targets))
     return out
 
 
@@ -400,7 +420,7 @@ def compute_oplists(tier, idxs):
             for t in targets:
                 for k in kinds:
                     r = c15.resolve(uni, t, k)
-                    out.append([i, [p[0] for p in uni["inst"]], t, k, r["outcome"], r["ops"], r["exc"]])
+                    out.append([i, uni["inst"], t, k, r["outcome"], r["ops"], r["exc"]])
     return out
 
 
@@ -500,8 +520,7 @@ def work_seeds(task):
         classes[k] = classes.get(k, 0) + 1
         if not same:
             i, inst, t, kind = rec[0], rec[1], rec[2], rec[3]
-            fname, dx1, dx2, dy2, sx2, dz1, il, mirror = fam[i]
-            uni = c15.mk_uni(dx1, dx2, dy2, sx2, dz1, inst, mirror)
+            uni = next(u for _f, u, _t, _k in c15.cases_of(tier, i, i + 1, fam) if json.loads(json.dumps(u["inst"])) == inst)
             viol.append({"what": "seeds", "tags": ["nondeterministic-hashseed"], "uni": c15.slim(uni), "targets": t, "kind": kind,
                          "msg": f"{kind} resolver, targets {' '.join(t)}: op list depends on PYTHONHASHSEED"})
     return {"evals": len(base) * len(SEEDS), "classes": classes, "viol": viol, "samples": []}
@@ -532,7 +551,7 @@ def _k_needs_lower_dependency(case):
         return False
     tops = {}
     for n, v, s, d in uni["src"]:
-        if n not in tops or v > tops[n][1]:
+        if n not in tops or c15.vcmp(v, tops[n][1]) > 0:
             tops[n] = (n, v, s, d)
     deps = {(n, v, s): d for n, v, s, d in uni["src"]}
 
@@ -578,9 +597,9 @@ def _k_warm_cache_finds_more(case):
     ff, _ = c15.final_state(case["uni"], fops)
     for t in case["left"]:
         a = c15.parse_atom(t)
-        wv = max([q[1] for q in wf if c15.ref_match(a, q)], default=-1)
-        fv = max([q[1] for q in ff if c15.ref_match(a, q)], default=-1)
-        if wv < fv:
+        wv = max([q[1] for q in wf if c15.ref_match(a, q)], key=c15.vkey, default=None)
+        fv = max([q[1] for q in ff if c15.ref_match(a, q)], key=c15.vkey, default=None)
+        if fv is not None and (wv is None or c15.vcmp(wv, fv) < 0):
             return False
     return True
 
